@@ -178,6 +178,8 @@ def check(cell):
     case = get_case(TIER[0], cell[1])
     if case["name"] != cell[2]:
         return ("harness", "case enumeration is not deterministic")
+    if case["op"] in ("getitem", "setitem"):
+        case = [c for c in ops.index_cases(TIER[0]) if c["name"] == cell[2]][0]  # fresh index objects
     return check_op(case)
 
 
